@@ -19,7 +19,7 @@ func main() {
 	}
 	r := hx.NewRng(run.Seed).Fork() // Fork: seeds n and n+1 would otherwise be the same stream shifted by one draw
 	meshgen.FixedCases(run)
-	meshgen.Tiles(run, r.Fork(), run.Tier == "thorough") // sizes past internal block limits: every local operation once
+	meshgen.Tiles(run, r.Fork(), run.Tier == "thorough") // ladder 2^10+1 .. 2^15+1 (thorough 2^17+1): every local operation at three rungs
 	kinds := append(append([]string{}, meshgen.ExactOps...), meshgen.FrameOps...)
 	// the index-remapping operations get twice the weight of the others
 	kinds = append(kinds, "append", "weld", "split", "filter", "remove_unref", "remove_null", "crop", "repeat", "unweld", "slice")
